@@ -137,6 +137,14 @@ def named_cases():
         'bad.lay': 'print("bad body");\nexport let y = never_declared;\n',
         'main.lay': 'print("before");\nimport self.bad:{y};\nprint("after");\n'},
         ['before', '<outcome exit:1>']))
+    out.append(('a std module that does not exist is an import error even when a file of that name sits next to the script', {
+        'foo.lay': 'print("user foo body");\nexport let x = 1;\n',
+        'main.lay': 'print("before");\nimport std.foo;\nprint(foo.x);\n'},
+        ['before', '<outcome error:ImportError>']))
+    out.append(('std.math.foo does not load ./math/foo.lay', {
+        'math/foo.lay': 'print("user math.foo");\nexport let y = 2;\n',
+        'main.lay': 'import std.math;\nprint(math.abs(-1));\nimport std.math.foo;\nprint(foo.y);\n'},
+        ['1', '<outcome error:ImportError>']))
     out.append(('module named like its package', {
         'q.lay': 'print("q");\nexport let v = 1;\n', 'q/q.lay': 'print("q.q");\nexport let v = 2;\n',
         'main.lay': 'import self.q.q as inner;\nimport self.q;\nprint(q.v, inner.v);\n'},
